@@ -1,4 +1,5 @@
 import TexcraftModel.Lemmas.C09
+import TexcraftModel.Lemmas.C09Trace
 import TexcraftModel.Props.C06
 
 /-!
@@ -16,7 +17,9 @@ for all inputs, are the parts of totality that are protocol and arithmetic (DESI
   error slices only at character boundaries and highlights exactly the characters asked for
   (with fixes/C09-e.patch; `highlightOld_panics` is the witness against the code as it was, and
   `excerpt_old_ascii_partial` says the old code was right on one-byte-per-character lines);
-* `trace_total` — `Tracer::trace` never underflows and slices at a boundary;
+* `trace_total`, `trace_locates`, `trace_eoi_total` — `Tracer::trace` never underflows, slices at a boundary, and
+  reports the line number, character position and line content of the token, whatever
+  multi-byte characters the text contains;
 * `char_from_code_total`, `char_from_code_scalar` (fixes/C09-a.patch; `charFromCodeOld_panics`),
   `uint_bound_total`, `ifcase_counter_total`, `ifcase_select_spec`;
 * the numeric kernels' totality, restated from C06 (`scan_int_total`, `scan_dimen_total`,
@@ -173,8 +176,40 @@ theorem trace_total (content : List Char) (off : Nat) : trace content off ≠ .p
   rw [if_neg (by omega), h3, splitAtByte_take content _ h2]
   simp
 
+/-- Correctness of the location: a token at character `pos` of the line `lc` that follows the
+complete lines `pre` (empty, or ending in a newline) is reported on line `1 + #newlines(pre)`,
+at position `pos`, with the line content `lc` — for arbitrary (multi-byte) characters.
+`pos = lc.length` is the line's own end (the key of the end-of-line character). -/
+theorem trace_locates (pre lc suf : List Char) (pos : Nat)
+    (hlc : ∀ c ∈ lc, c ≠ '\n') (hpre : pre = [] ∨ pre.getLast? = some '\n')
+    (hsuf : suf = [] ∨ suf.head? = some '\n') (hpos : pos ≤ lc.length) :
+    trace (pre ++ lc ++ suf) (pre.length + pos) = .ok (1 + pre.count '\n') pos lc :=
+  trace_locates' pre lc suf pos hlc hpre hsuf hpos
+
+/-- Location and excerpt together: the characters highlighted for a token of `len` characters
+found at offset `pre.length + pos` are the characters `pos … pos+len` of its line. -/
+theorem location_then_excerpt (pre lc suf : List Char) (pos len : Nat)
+    (hlc : ∀ c ∈ lc, c ≠ '\n') (hpre : pre = [] ∨ pre.getLast? = some '\n')
+    (hsuf : suf = [] ∨ suf.head? = some '\n') (hpos : pos + len ≤ lc.length) :
+    ∃ ln, trace (pre ++ lc ++ suf) (pre.length + pos) = .ok ln pos lc ∧
+      highlight lc pos len = .parts (lc.take pos) ((lc.drop pos).take len) (trimEnd (lc.drop (pos + len))) :=
+  ⟨_, trace_locates pre lc suf pos hlc hpre hsuf (by omega), excerpt_located lc pos len hpos⟩
+
+example : (∀ c ∈ ['é', '\\', 'x'], c ≠ '\n') ∧ (['a', 'é', '\n'].getLast? = some '\n') := by decide
 example : trace ['a', 'é', '\n', 'é', '\\', 'x', '\n'] 4 = .ok 2 1 ['é', '\\', 'x'] := by decide
 example : trace ['a', '\n'] 7 = .ok 2 5 [] := by decide
+
+/-- `trace_end_of_input` slices the content at a character boundary, for every content. -/
+theorem trace_eoi_total (content : List Char) : traceEoi content ≠ .panic := by
+  obtain ⟨k, hk, h⟩ := eoiLoop_inv content [] (0, 0) (0, 0)
+    ⟨0, by simp, by simp [byteLen]⟩ ⟨0, by simp, by simp [byteLen]⟩
+  simp only [byteLen, List.nil_append] at h hk
+  unfold traceEoi
+  simp only []
+  rw [h, splitAtByte_take content k hk]
+  simp
+
+example : traceEoi ['a', '\n', 'é', '{', ' ', '\n', ' ', '\n'] = .ok 2 2 ['é', '{'] := by decide
 
 /-! ## Numeric kernels -/
 
